@@ -438,9 +438,12 @@ def quiet_stdout():
     """strax prints 'Source finished!' from worker code; keep the check's stdout for the report lines"""
     old = sys.stdout
     sys.stdout = open(os.devnull, "w")
+    null = logging.NullHandler()
+    logging.getLogger().addHandler(null)      # otherwise logging.lastResort prints strax' warnings to stderr
     try:
         yield
     finally:
+        logging.getLogger().removeHandler(null)
         sys.stdout.close()
         sys.stdout = old
 
@@ -625,9 +628,12 @@ def oracle_interleaved(case, out):
 
 
 # -- the open findings, as the oracle words them (the same regexes are in known_findings.json)
-D8_REGEX = (r"crash: [^;]*(RuntimeError: dictionary changed size during iteration at=(_context_hash|register|_get_plugins|__get_requested_plugins_from_cache)"
+_D8_ERRS = (r"(RuntimeError: dictionary changed size during iteration at=(_context_hash|register|_get_plugins|__get_requested_plugins_from_cache)"
             r"|KeyError: '_temp_\w+' at=\w+"
-            r"|TypeError: [^;]*NoneType[^;]* at=\w+)( explained=1)? \[multi_target=1 workers=([2-9]|\d\d) ")
+            r"|TypeError: [^;]*NoneType[^;]* at=\w+)")
+D8_REGEX = (r"(crash: [^;]*" + _D8_ERRS + r"( explained=1)?"
+            r"|omitted-run: [^;]*swallowed the exception of their worker: (dictionary changed size during iteration|'_temp_\w+'|[^;]*NoneType)[^;]*)"
+            r" \[multi_target=1 workers=([2-9]|\d\d) ")
 D8B_REGEX = (r"crash: [^;]*RuntimeError: dictionary changed size during iteration at=__get_requested_plugins_from_cache"
              r"( explained=1)? \[multi_target=0 workers=([2-9]|\d\d) cache=cold ")
 KNOWN_SHAPES = [("D8-registry-race", re.compile(D8_REGEX)), ("D8b-plugin-cache-race", re.compile(D8B_REGEX))]
@@ -768,12 +774,41 @@ def expected_table(case):
     return (np.concatenate(parts) if parts else None), kinds
 
 
+class _Capture(logging.Handler):
+    def __init__(self):
+        super().__init__()
+        self.msgs = []
+
+    def emit(self, record):
+        self.msgs.append(record.getMessage())
+
+
+def present_runs(res):
+    import pandas as pd
+    if res is None:
+        return []
+    col = res["run_id"] if (isinstance(res, pd.DataFrame) and "run_id" in res.columns) or \
+        (not isinstance(res, pd.DataFrame) and "run_id" in res.dtype.names) else []
+    seen = []
+    for v in col:
+        v = v.decode() if isinstance(v, bytes) else str(v)
+        if v not in seen:
+            seen.append(v)
+    return seen
+
+
 def impl_real(case):
     tkey = case["targets"]
     tmp = tempfile.mkdtemp(prefix="c15real_") if case["storage"] else None
     old = sys.getswitchinterval()
     try:
         st = make_context(tmp, fail_runs=case["fail"])
+        cap = _Capture()
+        if case["ignore"]:
+            lg = logging.getLogger("c15.capture")
+            lg.handlers, lg.propagate = [cap], False
+            lg.setLevel(logging.WARNING)
+            st.log = lg
         if case["warm"]:
             st.get_array("warm", TARGETS[tkey], progress_bar=False)
         kw = dict(max_workers=case["workers"], progress_bar=False, multi_run_progress_bar=False)
@@ -787,6 +822,9 @@ def impl_real(case):
         finally:
             sys.setswitchinterval(old)
         out = "ok " + hashlib.sha1(canon_table(res).encode()).hexdigest()[:16]
+        st.log = QUIET_LOG
+        ignored = [m[len("Ran into "):].rsplit(", ignoring", 1)[0] for m in cap.msgs if m.startswith("Ran into ")]
+        out += " runs=" + (",".join(present_runs(res)) or "-") + " ignored=" + ("|".join(x.replace(" ", "_") for x in ignored) or "-")
         if case["api"] == "make":
             # what was made must be loadable afterwards, run by run, and equal the sequential result
             after = []
@@ -818,6 +856,18 @@ def oracle_real(case, out):
     if kinds and not case["ignore"]:
         return f"{case['api']} returned although run(s) fail with {kinds} and errors are not ignored {tag}"
     body = out[3:].split(" after=")
+    head, runs_tok, ign_tok = body[0].split(" ")
+    body[0] = head
+    present = [] if runs_tok == "runs=-" else runs_tok[5:].split(",")
+    ignored = [] if ign_tok == "ignored=-" else [x.replace("_", " ") for x in ign_tok[8:].split("|")]
+    healthy = [r for r in sorted(case["runs"]) if r not in case["fail"]]
+    n_expected_ignored = len([r for r in case["runs"] if r in case["fail"]])
+    if case["ignore"] and len(ignored) > n_expected_ignored:
+        # ignore_errors swallowed the exception of a run that loads fine on its own
+        foreign = [m for m in ignored if not m.startswith("Failed to process chunk") and "cannot be read" not in m]
+        missing = [r for r in healthy if r not in present] if case["api"] != "make" else ["?"]
+        return (f"omitted-run: healthy run(s) {missing} left out because ignore_errors swallowed the exception of their worker: "
+                f"{' / '.join(foreign or ignored)[:200]} {tag}")
     if case["api"] == "make":
         if not body[0].startswith(hashlib.sha1(b"none").hexdigest()[:16]):
             return f"make returned something {tag}"
@@ -849,7 +899,16 @@ def branch_real(case, out):
 
 
 # ----------------------------------------------------------------------------- entry points
+def _lap(t0, what):
+    from lib.engine import log
+    import time
+    log(f"[C15] {what}: {time.time() - t0[0]:.1f} s")
+    t0[0] = time.time()
+
+
 def run(ctx):
+    import time
+    t0 = [time.time()]
     cases = gen_multi_run_exhaustive(ctx)
     ctx.correspond("multi_run/exhaustive", cases, impl_multi_run, op_multi_run, oracle_multi_run,
                    nontrivial=nontrivial_multi_run, exhaustive=True, branch=branch_multi_run,
@@ -864,6 +923,7 @@ def run(ctx):
                      branch=branch_multi_run,
                      rule="same generator, stubs finish on their own after 0..4 ms (several futures per wait() round): oracle only")
 
+    _lap(t0, "multi_run stubs")
     with quiet_stdout():
         # warm up jitted code so that no step of a controlled thread is slow
         expected_single("0", "single"), expected_single("0", "multi")
@@ -876,6 +936,7 @@ def run(ctx):
         ctx.correspond("registry/random", cases, impl_interleaved, op_interleaved, cap, nontrivial=nontriv, branch=branch_interleaved,
                        rule=rule_il + "; seeded random schedules (switch probability 0.01..0.5), single / multiple same-kind targets, cold / warm cache, 20% with storage")
         cap.note("registry/random")
+        _lap(t0, "registry/random")
         cap = Capped(ctx, oracle_interleaved)
         cases = registry_preempt_cases(ctx, ctx.pick(25, 10 ** 6), ctx.pick(5, 150))
         ctx.correspond("registry/preempt", cases, impl_interleaved, op_interleaved, cap, nontrivial=nontriv, branch=branch_interleaved,
@@ -885,6 +946,7 @@ def run(ctx):
         cap.note("registry/preempt")
         minimal_interleavings(ctx, cases)
         _SIDE.clear()
+        _lap(t0, "registry/preempt")
 
         cap = Capped(ctx, oracle_real)
         cases = [real_case(ctx.rng) for _ in range(ctx.pick(120, 1500))]
@@ -892,6 +954,7 @@ def run(ctx):
                          rule="get_array / get_df / make on 2..8 runs x 1..8 workers, single / multiple same-kind targets, cold / warm plugin cache, with / without "
                               "storage, 25% with failing runs (60% of those with ignore_errors), interpreter switch interval 1 microsecond; non-trivial = at least 2 workers")
         cap.note("real/multi-run")
+        _lap(t0, "real/multi-run")
 
 
 def search(ctx):
